@@ -23,6 +23,8 @@ pub struct Profile {
     /// probability of each non-default policy answer
     pub negative_decisions: (u32, u32),
     pub odd_url: (u32, u32),
+    /// probability of a service URL that is no URL at all (request construction fails); 0 = never drawn
+    pub junk_url: (u32, u32),
     pub clock_jumps: bool,
     pub cohorts: bool,
 }
@@ -39,6 +41,7 @@ impl Default for Profile {
             exotic_retry_after: false,
             negative_decisions: (1, 6),
             odd_url: (0, 1),
+            junk_url: (0, 1),
             clock_jumps: false,
             cohorts: true,
         }
@@ -346,7 +349,7 @@ pub fn gen_script(t: &mut Tape, p: &Profile) -> Script {
     let nhttp = t.choose(p.max_http + 1);
     let http = (0..nhttp).map(|_| gen_http(t, &apps, p, cup.is_some())).collect();
     let ndec = t.choose(6);
-    let s = Script {
+    let mut s = Script {
         system_app: t.choose(apps.len()),
         service_url: if t.chance(p.odd_url.0, p.odd_url.1) { crate::urlref::gen_url(t).text } else { "http://omaha.test/".into() },
         os_version: (*t.pick(&["1.0", "2.0.0.0", "0.1.2.3"])).to_string(),
@@ -380,8 +383,26 @@ pub fn gen_script(t: &mut Tape, p: &Profile) -> Script {
         log_enabled: false,
         spoil_app_after_start: None,
         repeat_last_http: false,
+        junk_service_url: false,
     };
+    if p.junk_url.0 > 0 && t.chance(p.junk_url.0, p.junk_url.1) {
+        s.service_url = gen_junk_url(t);
+        s.junk_service_url = true;
+    }
     s
+}
+
+/// A service URL outside the URL grammar: the request cannot be constructed (or, for the few texts the http crate
+/// happens to accept, is sent somewhere odd).
+pub fn gen_junk_url(t: &mut Tape) -> String {
+    match t.choose(6) {
+        0 => String::new(),
+        1 => "not a url".into(),
+        2 => "http://".into(),
+        3 => "http://h/\u{e9}".into(),
+        4 => format!("http://h/{}", "a".repeat(70000)),
+        _ => t.text(12),
+    }
 }
 
 pub fn gen_wall_jump(t: &mut Tape) -> i128 {
